@@ -36,10 +36,11 @@ Print Assumptions precedence_levels.
 (* for every function-name map, every renderable tree, every continuation k and stack st: running the
    stored node array of e leaves exactly one new value on the stack - the text of e (the raw reference
    object when e is a bare reference) - and continues with k; nothing below is touched, nothing fails *)
-Theorem render_compile : forall (fmap : N -> option (list N)) (e : expr) (k : list node) (st : stack),
+Theorem render_compile : forall (fmap : N -> option (list N)) (e : expr),
   renderable e = true ->
+  forall (k : list node) (st : stack),
   run fmap (compile e ++ k) st = run fmap k (top_item fmap e :: st).
-Proof. intros fmap e k st H. exact (render_compile_lemma fmap e H k st). Qed.
+Proof. exact render_compile_lemma. Qed.
 Print Assumptions render_compile.
 
 Theorem top_item_text : forall (fmap : N -> option (list N)) (e : expr),
@@ -59,7 +60,7 @@ Print Assumptions formula_text_faithful.
 (* read with the regenerated precedence table, left-associative binary operators, unary minus above
    them and postfix % above that, the printed tokens parse back to the same tree: same operators on
    the same operands in the same order, same functions with the same arguments, same literals.
-   Fuel: there is a bound beyond which every amount of fuel gives this answer. *)
+   [parse] is the executable parser with its own fuel (2 * tokens + 2, proved sufficient). *)
 Theorem parse_show : forall e : expr, wf prec_tab e -> parse prec_tab (show e) = Some e.
 Proof. exact (parse_show_lemma prec_tab). Qed.
 Print Assumptions parse_show.
@@ -74,7 +75,7 @@ Print Assumptions show_injective.
 Theorem formula_denotes_tree : forall (fmap : N -> option (list N)) (e : expr),
   renderable e = true -> wf prec_tab e ->
   exists ts, formula_text fmap (compile e) = Ok (text fmap ts) /\ parse prec_tab ts = Some e.
-Proof. intros fmap e. exact (formula_denotes_tree_lemma fmap prec_tab e). Qed.
+Proof. exact (fun fmap e => formula_denotes_tree_lemma fmap prec_tab e). Qed.
 Print Assumptions formula_denotes_tree.
 
 (* the same without reference to the fuel the executable parser happens to use *)
